@@ -3,7 +3,6 @@
 package srv
 
 import (
-	"syscall"
 	"encoding/json"
 	"fmt"
 	"net"
@@ -11,32 +10,34 @@ import (
 	"path/filepath"
 	"strings"
 	"sync"
+	"syscall"
 	"time"
 
-	"github.com/q191201771/lal/pkg/base"
-	"github.com/q191201771/lal/pkg/logic"
 	"crypto/ecdsa"
 	"crypto/elliptic"
 	crand "crypto/rand"
 	"crypto/x509"
 	"crypto/x509/pkix"
 	"encoding/pem"
+	"github.com/q191201771/lal/pkg/base"
+	"github.com/q191201771/lal/pkg/logic"
 	"math/big"
 )
 
 type SimpleAuth struct {
-	Key              string `json:"key"`
-	DangerousSecret  string `json:"dangerous_lal_secret"`
-	PubRtmp          bool   `json:"pub_rtmp_enable"`
-	SubRtmp          bool   `json:"sub_rtmp_enable"`
-	SubHttpflv       bool   `json:"sub_httpflv_enable"`
-	SubHttpts        bool   `json:"sub_httpts_enable"`
-	PubRtsp          bool   `json:"pub_rtsp_enable"`
-	SubRtsp          bool   `json:"sub_rtsp_enable"`
-	HlsM3u8          bool   `json:"hls_m3u8_enable"`
+	Key             string `json:"key"`
+	DangerousSecret string `json:"dangerous_lal_secret"`
+	PubRtmp         bool   `json:"pub_rtmp_enable"`
+	SubRtmp         bool   `json:"sub_rtmp_enable"`
+	SubHttpflv      bool   `json:"sub_httpflv_enable"`
+	SubHttpts       bool   `json:"sub_httpts_enable"`
+	PubRtsp         bool   `json:"pub_rtsp_enable"`
+	SubRtsp         bool   `json:"sub_rtsp_enable"`
+	HlsM3u8         bool   `json:"hls_m3u8_enable"`
 }
 
 type Conf struct {
+	HttpDualStack                   bool // the HTTP listener is configured as ":port" (IPv4 and IPv6) instead of 127.0.0.1:port
 	RtmpGop, RtmpGopCap, MergeWrite int
 	Flv                             bool
 	FlvGop, FlvGopCap               int
@@ -73,20 +74,20 @@ type Ports struct {
 }
 
 type Server struct {
-	Wedged bool // Stop() gave up waiting for Dispose
-	Conf   Conf
-	Root   string
-	Ports  Ports
-	Lal    logic.ILalServer
-	Notify *Recorder
-	done   chan error
+	Wedged                bool // Stop() gave up waiting for Dispose
+	Conf                  Conf
+	Root                  string
+	Ports                 Ports
+	Lal                   logic.ILalServer
+	Notify                *Recorder
+	done                  chan error
 	HlsDir, FlvDir, TsDir string
 }
 
-func (s *Server) RtmpAddr() string { return fmt.Sprintf("127.0.0.1:%d", s.Ports.Rtmp) }
-func (s *Server) HttpAddr() string { return fmt.Sprintf("127.0.0.1:%d", s.Ports.Http) }
-func (s *Server) RtspAddr() string { return fmt.Sprintf("127.0.0.1:%d", s.Ports.Rtsp) }
-func (s *Server) ApiAddr() string  { return fmt.Sprintf("127.0.0.1:%d", s.Ports.Api) }
+func (s *Server) RtmpAddr() string  { return fmt.Sprintf("127.0.0.1:%d", s.Ports.Rtmp) }
+func (s *Server) HttpAddr() string  { return fmt.Sprintf("127.0.0.1:%d", s.Ports.Http) }
+func (s *Server) RtspAddr() string  { return fmt.Sprintf("127.0.0.1:%d", s.Ports.Rtsp) }
+func (s *Server) ApiAddr() string   { return fmt.Sprintf("127.0.0.1:%d", s.Ports.Api) }
 func (s *Server) HttpsAddr() string { return fmt.Sprintf("127.0.0.1:%d", s.Ports.Https) }
 
 // FreePort returns a TCP port that was free a moment ago.
@@ -211,6 +212,10 @@ func start1(c Conf, root string) (*Server, error) {
 		rtmpConf["rtmps_enable"], rtmpConf["rtmps_addr"], rtmpConf["rtmps_cert_file"], rtmpConf["rtmps_key_file"] = true, s.RtmpAddr(), certFile, keyFile
 	}
 	defHttp := map[string]interface{}{"http_listen_addr": s.HttpAddr()}
+	if c.HttpDualStack {
+		// lal's documented default form ":port": reachable over IPv4 and IPv6
+		defHttp["http_listen_addr"] = fmt.Sprintf(":%d", s.Ports.Http)
+	}
 	if c.FlvHttpsOnly || c.TsHttpsOnly {
 		certFile, keyFile, err := writeSelfSignedCert(filepath.Join(root, "logs"))
 		if err != nil {
@@ -222,7 +227,7 @@ func start1(c Conf, root string) (*Server, error) {
 	}
 	m := map[string]interface{}{
 		"conf_version": base.ConfVersion,
-		"rtmp": rtmpConf,
+		"rtmp":         rtmpConf,
 		"in_session":   map[string]interface{}{"add_dummy_audio_enable": c.DummyAudio, "add_dummy_audio_wait_audio_ms": c.DummyAudioWaitMs},
 		"default_http": defHttp,
 		"httpflv":      map[string]interface{}{"enable": c.Flv && !c.FlvHttpsOnly, "enable_https": c.Flv && c.FlvHttpsOnly, "url_pattern": "/live/", "gop_num": c.FlvGop, "single_gop_max_frame_num": c.FlvGopCap},
@@ -342,10 +347,10 @@ type Recorder struct {
 	// OnHlsMakeTsHook, if set, runs inside the notification callback (an integrator's handler may call
 	// the server's API from there: lal delivers notifications off its locks)
 	OnHlsMakeTsHook func(base.HlsMakeTsInfo)
-	PortProto map[string][]string // server port → protocols lal reports for sessions accepted there
-	mu     sync.Mutex
-	cond   *sync.Cond
-	Events []Event
+	PortProto       map[string][]string // server port → protocols lal reports for sessions accepted there
+	mu              sync.Mutex
+	cond            *sync.Cond
+	Events          []Event
 }
 
 func NewRecorder() *Recorder {
@@ -363,7 +368,7 @@ func (r *Recorder) add(kind string, i base.SessionEventCommonInfo, extra string)
 }
 
 func (r *Recorder) OnServerStart(info base.LalInfo) {}
-func (r *Recorder) OnUpdate(info base.UpdateInfo)    {}
+func (r *Recorder) OnUpdate(info base.UpdateInfo)   {}
 func (r *Recorder) OnPubStart(info base.PubStartInfo) {
 	r.add("pub_start", info.SessionEventCommonInfo, "")
 }
@@ -568,7 +573,6 @@ func (s *Server) InstallHook(keep bool) *HookRecorder {
 	s.Lal.WithOnHookSession(r.New)
 	return r
 }
-
 
 // writeSelfSignedCert writes a fresh self-signed certificate for 127.0.0.1 (ECDSA P-256) and its key as PEM files.
 func writeSelfSignedCert(dir string) (certFile, keyFile string, err error) {
